@@ -2,11 +2,11 @@
    1. sorted lists: merge / kmerge / dedup / take_while / filter / map / flat_map / rangeN,
    2. sums of non-decreasing functions,
    3. Periodic and Sporadic,
-   4. Curve (outside the plateau class),
+   4. Curve (every wf_dmin vector, plateau-ended ones included),
    5. ExtrapolatingCurve,
    6. Propagated, sums: steps_upto_exact,
    7. request bounds: strictly increasing cost models, rb_steps_upto_exact, step_offsets_exact,
-   8. corollaries and the two refuted classes. *)
+   8. corollaries, the regression theorem of the former plateau class and the refuted class ArrivalCurvePrefix. *)
 From Coq Require Import List NArith Arith Lia Bool Sorting.Sorted.
 From Coq Require Import ZifyBool.
 From RTA.Model Require Import Base Arrival Wcet Demand WellFormed.
@@ -465,11 +465,19 @@ Proof.
   destruct (N.ltb_spec L L); lia.
 Qed.
 
-Lemma curve_increase : forall d delta, wf_dmin d -> ~ plateau_end d ->
+Lemma curve_tail_ge1 : forall d x, 0 < x -> 1 <= curve_tail d x.
+Proof.
+  intros d x Hx. unfold curve_tail. destruct (hdN d <? x); [apply lookup_ge1|].
+  unfold b2n. destruct (N.ltb_spec 0 x); lia.
+Qed.
+
+(* number_arrivals increases after delta exactly when delta is a multiple of the last entry or its remainder is
+   an entry; at multiples a new repetition block starts (with the plateau repair: for every wf_dmin vector) *)
+Lemma curve_increase : forall d delta, wf_dmin d ->
   (curve_na d delta < curve_na d (delta + 1) <->
    delta mod lastN d = 0 \/ In (delta mod lastN d) d).
 Proof.
-  intros d delta Hwf Hnp. pose proof Hwf as [Hne [Hnd Hlast]].
+  intros d delta Hwf. pose proof Hwf as [Hne [Hnd Hlast]].
   pose proof (nondec_sorted d Hnd) as Hs.
   destruct (N.eq_dec delta 0) as [->|Hd].
   - rewrite curve_na_0, N.mod_0_l by lia.
@@ -477,15 +485,16 @@ Proof.
     assert (Hl : (0 < length d)%nat) by (destruct d; [congruence | cbn [length]; lia]).
     assert (Hpre : 0 * lastN d + 0 + 1 <= 0 + 1) by lia.
     specialize (Hlb Hl Hpre). split; [intros _; left; reflexivity | lia].
-  - rewrite !curve_na_eq by lia.
-    rewrite <- (curve_tail_step d (delta mod lastN d) Hs Hne).
-    pose proof (curve_tail_last d Hwf Hnp) as HL.
+  - set (n := delta - 1). assert (E : delta = n + 1) by (unfold n; lia). clearbody n. subst delta.
+    rewrite !curve_na_succ by exact Hlast.
     set (L := lastN d) in *.
-    destruct (divmod_succ delta L Hlast) as [[H1 [H2 H3]]|[H1 [H2 H3]]]; rewrite H2, H3.
-    + lia.
-    + rewrite H1, HL. unfold curve_tail at 2.
-      destruct (N.ltb_spec (hdN d) 0) as [E|_]; [lia|]. cbn [b2n].
-      destruct (N.ltb_spec 0 0) as [E|_]; [lia|]. cbn [b2n]. rewrite N.mul_add_distr_r. lia.
+    destruct (divmod_succ n L Hlast) as [[H1 [H2 H3]]|[H1 [H2 H3]]]; rewrite H2, H3.
+    + rewrite <- (curve_tail_step d (n mod L + 1) Hs Hne). lia.
+    + rewrite H1.
+      pose proof (curve_tail_le_len d L Hne ltac:(unfold L; lia)) as Hle.
+      pose proof (curve_tail_ge1 d (0 + 1) ltac:(lia)) as Hge.
+      split; [intros _; left; reflexivity | intros _].
+      rewrite N.mul_add_distr_r. lia.
 Qed.
 
 Lemma sorted_app_inv : forall l1 l2, StronglySorted N.lt (l1 ++ l2) ->
@@ -546,10 +555,10 @@ Proof.
     + intros [E|[H1 [H2 H3]]]; [left; lia | right; auto].
 Qed.
 
-Lemma curve_steps_exact : forall d h, wf_dmin d -> ~ plateau_end d ->
+Lemma curve_steps_exact : forall d h, wf_dmin d ->
   steps_spec (curve_na d) (curve_steps_upto d h) h.
 Proof.
-  intros d h Hwf Hnp. pose proof Hwf as [Hne [Hnd Hlast]].
+  intros d h Hwf. pose proof Hwf as [Hne [Hnd Hlast]].
   destruct (curve_step_base_spec d Hwf) as [Hbs Hbin].
   unfold curve_steps_upto. set (L := lastN d) in *. split.
   - apply filter_sorted. apply flat_map_sorted; [apply rangeN_sorted | |].
@@ -564,12 +573,12 @@ Proof.
       apply Hbin in Hv. assert (Hvl : v < L) by (destruct Hv as [->|[_ [_ Hv]]]; lia).
       split; [lia|]. split; [lia|].
       replace (1 + k * L + v) with (1 + k * L + v - 1 + 1) at 2 by lia.
-      apply curve_increase; [exact Hwf | exact Hnp|]. fold L.
+      apply curve_increase; [exact Hwf|]. fold L.
       replace (1 + k * L + v - 1) with (v + k * L) by lia.
       rewrite N.mod_add, N.mod_small by lia.
       destruct Hv as [->|[Hv _]]; [left; reflexivity | right; exact Hv].
     + intros [H1 [H2 H3]]. replace x with (x - 1 + 1) in H3 at 2 by lia.
-      apply curve_increase in H3; [|exact Hwf | exact Hnp]. fold L in H3.
+      apply curve_increase in H3; [|exact Hwf]. fold L in H3.
       pose proof (N.div_mod (x - 1) L ltac:(lia)) as Hdm.
       pose proof (N.mod_lt (x - 1) L ltac:(lia)) as Hlt.
       assert (Hq : (x - 1) / L <= h / L) by (apply N.div_le_mono; lia).
@@ -679,16 +688,29 @@ Section Extension.
   Qed.
 End Extension.
 
+Lemma curve_na_singleton : forall p delta, 0 < p -> curve_na [p] delta = div_ceil delta p.
+Proof.
+  intros p delta Hp.
+  destruct (N.eq_dec delta 0) as [->|Hd]; [rewrite div_ceil_0; reflexivity|].
+  unfold curve_na. destruct (N.eqb_spec delta 0) as [E|_]; [congruence|]. cbv zeta.
+  change (lastN [p]) with p. change (hdN [p]) with p. change (lenN [p]) with 1.
+  pose proof (N.mod_lt delta p ltac:(lia)) as Hlt.
+  unfold div_ceil, b2n. rewrite N.mul_1_r.
+  destruct (N.eqb_spec (delta mod p) 0) as [E|E].
+  - rewrite E. cbn [lookup_arrivals]. destruct (N.leb_spec p p) as [_|E']; [|lia].
+    destruct (N.ltb_spec 0 0) as [E'|_]; [lia|].
+    assert (1 <= delta / p); [|lia].
+    pose proof (N.div_mod delta p ltac:(lia)) as Hdm. rewrite E in Hdm.
+    destruct (N.eq_dec (delta / p) 0) as [E0|E0]; [rewrite E0 in Hdm; lia | lia].
+  - destruct (N.ltb_spec p (delta mod p)) as [E'|_]; [dlia|].
+    destruct (N.ltb_spec 0 (delta mod p)) as [_|E']; [reflexivity | dlia].
+Qed.
+
 Lemma extrap_na_single : forall p delta, 0 < p -> extrap_na [p] delta = div_ceil delta p.
 Proof.
   intros p delta Hp. unfold extrap_na.
   destruct (N.eqb_spec delta 0) as [->|Hd]; [rewrite div_ceil_0; reflexivity|].
-  change (extrapolate [p] (delta + 1)) with [p].
-  unfold curve_na. destruct (N.eqb_spec delta 0) as [E|_]; [congruence|]. cbv zeta.
-  change (lastN [p]) with p. change (hdN [p]) with p. change (lenN [p]) with 1.
-  pose proof (N.mod_lt delta p ltac:(lia)) as Hlt.
-  destruct (N.ltb_spec p (delta mod p)) as [E|_]; [lia|].
-  unfold div_ceil, b2n. rewrite N.mul_1_r. reflexivity.
+  change (extrapolate [p] (delta + 1)) with [p]. apply curve_na_singleton. exact Hp.
 Qed.
 
 Lemma extrap_steps_exact : forall d h, wf_dmin d -> steps_spec (extrap_na d) (extrap_steps_upto d h) h.
@@ -765,7 +787,7 @@ Proof.
     apply sporadic_steps_exact. exact Hwf.
   - split; [constructor|]. intros d. cbn [steps_upto na In]. split; [tauto | lia].
   - apply (steps_spec_ext (curve_na d)); [intros x; reflexivity|].
-    apply curve_steps_exact; assumption.
+    apply curve_steps_exact; exact Hwf.
   - apply (steps_spec_ext (extrap_na d)); [intros x; reflexivity|].
     apply extrap_steps_exact; assumption.
   - destruct Hc.
@@ -903,7 +925,7 @@ Qed.
 Print Assumptions step_offsets_exact.
 
 (* ------------------------------------------------------------------------------------------ *)
-(* 8. corollaries and the two known classes                                                    *)
+(* 8. corollaries and the known classes                                                        *)
 (* ------------------------------------------------------------------------------------------ *)
 Corollary steps_start_with_one : forall ab, wf_ab ab -> steps_exact_class ab ->
   forall h, 1 <= h -> 0 < na ab 1 -> hd 0 (steps_upto ab h) = 1.
@@ -934,21 +956,29 @@ Proof.
 Qed.
 Print Assumptions steps_never_zero.
 
-(* the two known classes are genuinely outside the theorem *)
-Theorem plateau_curve_refuted : exists d h, wf_dmin d /\ plateau_end d /\
-  ~ steps_spec (na (CurveAB d)) (steps_upto (CurveAB d) h) h.
+(* the former finding C11-plateau-curve: the old witness vector (it ends in a plateau) is covered now *)
+Theorem plateau_curve_steps_exact : wf_dmin [5; 10; 10] /\ plateau_end [5; 10; 10] /\
+  (forall h, steps_spec (na (CurveAB [5; 10; 10])) (steps_upto (CurveAB [5; 10; 10]) h) h) /\
+  na (CurveAB [5; 10; 10]) 10 = 2 /\ In 11 (steps_upto (CurveAB [5; 10; 10]) 12).
 Proof.
-  exists [5; 10; 10], 12. split; [|split].
-  - split; [discriminate|]. split; [|vm_compute; reflexivity].
-    intros [|[|i]] Hi; cbn [length] in Hi; [vm_compute; discriminate | vm_compute; discriminate | lia].
+  assert (Hwf : wf_dmin [5; 10; 10]).
+  { split; [discriminate|]. split; [|vm_compute; reflexivity].
+    intros [|[|i]] Hi; cbn [length] in Hi; [vm_compute; discriminate | vm_compute; discriminate | lia]. }
+  split; [exact Hwf|]. split; [|split; [|split]].
   - split; [cbn [length]; lia | reflexivity].
-  - intros [_ Hin]. destruct (Hin 10) as [_ H].
-    assert (H10 : In 10 (steps_upto (CurveAB [5; 10; 10]) 12)).
-    { apply H. split; [lia|]. split; [lia|]. vm_compute. reflexivity. }
-    vm_compute in H10. repeat (destruct H10 as [H10|H10]; [discriminate|]). exact H10.
+  - intros h. apply (steps_upto_exact (CurveAB [5; 10; 10])); [exact Hwf | exact I].
+  - vm_compute. reflexivity.
+  - vm_compute. tauto.
 Qed.
-Print Assumptions plateau_curve_refuted.
+Print Assumptions plateau_curve_steps_exact.
 
+(* every well-formed Curve, explicitly (no side condition on plateaus) *)
+Theorem curve_ab_steps_exact : forall d, wf_dmin d ->
+  forall h, steps_spec (na (CurveAB d)) (steps_upto (CurveAB d) h) h.
+Proof. intros d Hwf h. apply (steps_upto_exact (CurveAB d)); [exact Hwf | exact I]. Qed.
+Print Assumptions curve_ab_steps_exact.
+
+(* the remaining known class is genuinely outside the theorem *)
 Theorem prefix_zero_step_refuted : exists hz s h, wf_prefix hz s /\ In 0 (steps_upto (PrefixAB hz s) h).
 Proof.
   exists 10, [(1, 1); (5, 2)], 12. split.
@@ -971,12 +1001,13 @@ Example check_steps_sample :
   forallb (fun ab => forallb (check_steps ab) (rangeN 0 41))
     [Periodic 1; Periodic 7; Sporadic 3 0; Sporadic 3 7; Sporadic 5 13; Never;
      CurveAB [1]; CurveAB [0; 0; 3]; CurveAB [2; 2; 5]; CurveAB [3; 3; 3; 7];
+     CurveAB [5; 10; 10]; CurveAB [0; 5; 5]; CurveAB [4; 4]; CurveAB [0; 0; 7; 7]; CurveAB [1; 1; 1];
      ExtrapAB [5]; ExtrapAB [0; 0; 3]; ExtrapAB [5; 10; 10]; ExtrapAB [2; 7; 7];
      Propagated 0 (CurveAB [0; 0; 3]); Propagated 5 (ExtrapAB [2; 7; 7]); Propagated 13 (Sporadic 3 4);
      SumAB []; SumAB [Periodic 3; Sporadic 4 2; CurveAB [0; 0; 3]];
      Propagated 4 (SumAB [Periodic 3; SumAB [Never; ExtrapAB [1; 1; 1; 4]]])] = true.
 Proof. vm_compute. reflexivity. Qed.
 
-(* the plateau class fails the same check *)
-Example check_steps_plateau : check_steps (CurveAB [5; 10; 10]) 12 = false.
+(* the plateau class passes the same check (it failed before the repair of Curve::number_arrivals) *)
+Example check_steps_plateau : check_steps (CurveAB [5; 10; 10]) 12 = true.
 Proof. vm_compute. reflexivity. Qed.
